@@ -170,6 +170,7 @@ class ExchangeMove(
                 context._deleted_atoms += context.atoms[indices]
                 context.particle_delta -= 1
 
+                context.remember_constraints()
                 del context.atoms[indices]
                 return self.register_success()
 
@@ -311,6 +312,7 @@ class CompositeExchangeMove(CompositeMove[ExchangeMove]):
             context._deleted_atoms += context.atoms[deleted_indices]
             context.particle_delta -= len(np.unique(deleted_labels))
 
+            context.remember_constraints()
             del context.atoms[deleted_indices]
 
             return True
